@@ -133,6 +133,8 @@ class _FaultyWriter:
 def _make_open(read_site, write_site):
     def _open(file, mode="r", *a, **kw):
         plan = HOOKS.io
+        if write_site == "dump_open" and any(c in mode for c in "wax+"):
+            HOOKS.point("io_open")          # I/O is a scheduling point: another thread may run between open and write
         if plan is None:
             return builtins.open(file, mode, *a, **kw)
         writing = any(c in mode for c in "wax+")
@@ -181,6 +183,14 @@ class _OsProxy:
                 plan.fired.append({"site": "makedirs", "kind": f["kind"], "path": str(name)})
                 raise _oserror(f["kind"], str(name))
         return _real_os.makedirs(name, *a, **kw)
+
+    def replace(self, src, dst, *a, **kw):
+        HOOKS.point("io_rename")
+        return _real_os.replace(src, dst, *a, **kw)
+
+    def rename(self, src, dst, *a, **kw):
+        HOOKS.point("io_rename")
+        return _real_os.rename(src, dst, *a, **kw)
 
     def listdir(self, path="."):
         names = _real_os.listdir(path)
